@@ -10,6 +10,7 @@ from sfv.rt import recov
 from sfv.rt.par import pmap
 
 PHASES = ["schedule", "transfer", "execute"]
+K_SHARED = "workflow-fails-below-retry-limit:shared-producer-rolled-back-once-per-consumer-recovery"
 
 
 def shapes(rng: random.Random, quick: bool) -> list[dict]:
@@ -127,8 +128,14 @@ class C16(Property):
             cases.append({"name": f"ref {tagname}", "shape": sh, "plan": [], "max_retries": 6, "ref": True})
             for i, pl in enumerate(plans(rng, sh, quick)):
                 cases.append({"name": f"{tagname} plan{i} {json.dumps(pl)}", "shape": sh, "plan": pl, "max_retries": 6})
+        # corpus: the known finding (a producer shared by >= max_retries consumers, lost once)
+        sh6 = {"kind": "scatter", "m": 6}
+        if not any(c["shape"] == sh6 and c.get("ref") for c in cases):
+            cases.append({"name": f"ref {json.dumps(sh6, sort_keys=True)}", "shape": sh6, "plan": [], "max_retries": 6, "ref": True})
+        cases.append({"name": "corpus scatter6 one fail-stop transfer failure of b/0.0 deleting a", "shape": sh6, "max_retries": 6,
+                      "plan": [{"step": "/b", "tag": "0.0", "phase": "transfer", "kind": "failstop", "count": 1, "lose": [["/b", "0.0"], ["/a", "0"]]}]})
         results = {}
-        for case, status, r in pmap(recov.run_case, cases, timeout=400, workers=6):
+        for case, status, r in pmap(recov.run_case, cases, timeout=900, workers=6):
             results[case["name"]] = (case, status, r)
         lines, meta = [], []
         for name, (case, status, r) in results.items():
@@ -139,9 +146,21 @@ class C16(Property):
             ctx.case({"case": name[:160], "outcome": r["outcome"], "attempts": r.get("attempts")}, ("c", name),
                      case["shape"]["kind"] + (":ref" if case.get("ref") else ":faults"))
             if r["outcome"] != "ok":
-                ctx.fail(f"run:{r['outcome']}", f"{name}: {r.get('msg', '')[:300]}", replay)
+                # a producer that never failed itself reached max_retries because every consumer's recovery rolled it back again
+                injected_jobs = {j for j, _, _ in r.get("injected", [])}
+                limit = case.get("max_retries")
+                worn = [j for j, v in r.get("versions", {}).items() if limit and v >= limit and j not in injected_jobs
+                        and [e[0] for e in r.get("events", []) if e[1] == j].count("exec") - 1
+                        > sum(1 for k, (a, b) in enumerate(zip([None] + [e[0] for e in r["events"] if e[1] == j], [e[0] for e in r["events"] if e[1] == j]))
+                              if b == "lose" and a != "lose")]
+                if r["outcome"].startswith("exc:") and worn:
+                    ctx.fail(K_SHARED, f"{name}: the workflow failed although no job failed {limit} times: {worn} reached version {limit} — "
+                             f"executed {[r['attempts'].get(j) for j in worn]} times for {[[e[0] for e in r['events'] if e[1] == j].count('lose') for j in worn]} "
+                             f"loss(es) of its data, rolled back once per consumer recovery", replay)
+                else:
+                    ctx.fail(f"run:{r['outcome']}", f"{name}: {r.get('msg', '')[:300]}", replay)
                 continue
-            bad = {s: st for s, st in r["statuses"].items() if st != "COMPLETED"}
+            bad = {s: st for s, st in r["statuses"].items() if st not in ("COMPLETED", "SKIPPED")}
             if bad:
                 ctx.fail("step-not-completed", f"{name}: {bad}", replay)
             if not case.get("ref"):
